@@ -2,7 +2,8 @@
  * nondeterminism behind seams the simulator owns:
  *   getrandom()/getentropy()  -> SplitMix64 stream keyed by VERIF_ENTROPY_SEED
  *                                (std documents the weak `getrandom` symbol for exactly this)
- *   clock_gettime()/gettimeofday()/time() -> simulated clock: VERIF_CLOCK_BASE seconds, +1us per call
+ *   clock_gettime()/gettimeofday()/time() -> simulated clock: VERIF_CLOCK_BASE seconds, + VERIF_CLOCK_STEP_NS (default 1000)
+ *                                per call, and a jump of J ns at every Nth call (VERIF_CLOCK_JUMP=N:J)
  *                                (only when VERIF_CLOCK_BASE is set; otherwise the real clock)
  *   getpid()                  -> VERIF_FAKE_PID (if set)
  *   getenv()/secure_getenv()  -> passed through, but the names asked for are recorded
@@ -29,7 +30,7 @@
 static pthread_mutex_t mu = PTHREAD_MUTEX_INITIALIZER;
 static int inited = 0;
 static uint64_t state = 0;
-static uint64_t clock_ticks = 0;
+static uint64_t clock_ticks = 0, clock_ns = 0, clock_step = 1000, jump_every = 0, jump_ns = 0;
 static uint64_t clock_base = 1700000000ULL;
 static long fake_pid = 0;
 static int clock_on = 0;
@@ -56,6 +57,10 @@ static void init_locked(void) {
     state ^= 0x5851F42D4C957F2DULL;
     const char *c = getenv("VERIF_CLOCK_BASE");
     if (c) { clock_base = strtoull(c, NULL, 10); clock_on = 1; }
+    const char *st = getenv("VERIF_CLOCK_STEP_NS");
+    if (st) clock_step = strtoull(st, NULL, 10);
+    const char *j = getenv("VERIF_CLOCK_JUMP");
+    if (j) { char *e = 0; jump_every = strtoull(j, &e, 10); if (e && *e == ':') jump_ns = strtoull(e + 1, NULL, 10); }
     const char *p = getenv("VERIF_FAKE_PID");
     if (p) fake_pid = strtol(p, NULL, 10);
     atexit(report);
@@ -101,8 +106,10 @@ static void sim_now(uint64_t *sec, uint64_t *nsec) {
     init_locked();
     if (marked) n_clock++;
     clock_ticks++;
-    *sec = clock_base + clock_ticks / 1000000ULL;
-    *nsec = (clock_ticks % 1000000ULL) * 1000ULL;
+    clock_ns += clock_step;
+    if (jump_every && clock_ticks % jump_every == 0) clock_ns += jump_ns;
+    *sec = clock_base + clock_ns / 1000000000ULL;
+    *nsec = clock_ns % 1000000000ULL;
     pthread_mutex_unlock(&mu);
 }
 
